@@ -46,7 +46,7 @@ static inline std::string cfgKey(Instance& m, const Shape& sh) {
 }
 
 #if VH_MANUAL
-static inline void doEnter(Inst& in) { in.probe.activating = true; in.m->enter(); in.probe.activating = false; in.active = true; }
+static inline void doEnter(Inst& in) { Probe& cp = in.ctx ? *in.ctx : in.probe; cp.activating = true; const bool nc = cp.noCancel; cp.noCancel = true; in.m->enter(); cp.activating = false; cp.noCancel = nc; in.active = true; }
 static inline void doExit (Inst& in) { in.m->exit();  in.active = false; }
 #endif
 
